@@ -50,6 +50,10 @@ deriving Repr, DecidableEq
 inductive Variant | asIs | repaired
 deriving Repr, DecidableEq
 
+/-- the variant of both ASE spots that /repo has since commit 1dd0318
+    (`MaxwellBoltzmannDistribution(..., rng=self.rgen)`, `kin_new` after `Stationary`) -/
+def codeVariant : Variant := .repaired
+
 /-- What an engine instance knows (constructor arguments / input files). -/
 structure Setup where
   engine : Engine
@@ -226,8 +230,10 @@ def modifyNumpy (s : Setup) (src : Frame) (sysEkin : Option Rat) (zm : Option Bo
 /-- `ASEEngine.modify_velocities`.  `sigP` = `np.sqrt(masses * temp)`; momenta = `sigPᵢ·zᵢⱼ`,
     velocities = momenta / mass.  `Stationary(atoms, preserve_temperature=False)` subtracts
     `(Σp/Σm)·mᵢ` from the momenta, i.e. `Σp/Σm` from every velocity (= `resetCol`).
-    Spot 1 (`vKin`): `kin_new` is taken *before* `Stationary` (asIs) / after it (repaired).
-    Spot 2 (`vRng`): the draw goes to numpy's global state (asIs) / the engine's rgen (repaired). -/
+    Spot 1 (`vKin`): `kin_new` is taken *before* `Stationary` (asIs, until 1dd0318) / after it
+    (repaired, the code now).
+    Spot 2 (`vRng`): the draw goes to numpy's global state (asIs, until 1dd0318) / the engine's
+    rgen (repaired, the code now). -/
 def modifyAse (vKin vRng : Variant) (s : Setup) (src : Frame) (zm : Option Bool)
     (sigP : List Rat) (z : List (List Rat)) : Result :=
   let ms := s.massIn
